@@ -36,7 +36,9 @@ type step struct {
 	// request: handler delay in ms, fragmented delivery
 	DelayMs    int  `json:"delay_ms,omitempty"`
 	Fragmented bool `json:"fragmented,omitempty"`
-	IdleMs     int  `json:"idle_ms,omitempty"`
+	// Tail (with Fragmented): the last fragment has this many bytes (0: the request is split after its 5th byte)
+	Tail   int `json:"tail,omitempty"`
+	IdleMs int `json:"idle_ms,omitempty"`
 }
 
 type lifeCase struct {
@@ -427,11 +429,15 @@ func runLifeOnce(c lifeCase) harness.Result {
 			ev.mu.Unlock()
 			_ = cl.conn.SetWriteDeadline(time.Now().Add(3 * time.Second))
 			if st.Fragmented {
-				if _, err := cl.conn.Write(req[:5]); err != nil {
+				cut := 5
+				if st.Tail > 0 && st.Tail < len(req) {
+					cut = len(req) - st.Tail
+				}
+				if _, err := cl.conn.Write(req[:cut]); err != nil {
 					return fail("step %d: write failed: %v", si, err)
 				}
 				time.Sleep(15 * time.Millisecond)
-				_, err = cl.conn.Write(req[5:])
+				_, err = cl.conn.Write(req[cut:])
 			} else {
 				_, err = cl.conn.Write(req)
 			}
@@ -709,6 +715,9 @@ func genLife(t *rapid.T) lifeCase {
 			st.Client = rapid.IntRange(0, k-1).Draw(t, "client")
 			st.DelayMs = rapid.SampledFrom([]int{0, 0, 1, 5, 20}).Draw(t, "delay")
 			st.Fragmented = rapid.IntRange(0, 3).Draw(t, "frag") == 0
+			if st.Fragmented {
+				st.Tail = rapid.SampledFrom([]int{0, 0, 1, 2, 3, 6}).Draw(t, "tail")
+			}
 		case "idle":
 			st.IdleMs = rapid.IntRange(0, 15).Draw(t, "idle")
 		case "disconnect", "panic-request":
@@ -723,7 +732,12 @@ func genLife(t *rapid.T) lifeCase {
 	default:
 		m := rapid.IntRange(0, 2).Draw(t, "ninflight")
 		for i := 0; i < m; i++ {
-			c.Steps = append(c.Steps, step{Op: "inflight", Client: rapid.IntRange(0, k-1).Draw(t, "client"), DelayMs: rapid.SampledFrom([]int{20, 40, 80}).Draw(t, "delay")})
+			inf := step{Op: "inflight", Client: rapid.IntRange(0, k-1).Draw(t, "client"), DelayMs: rapid.SampledFrom([]int{20, 40, 80}).Draw(t, "delay")}
+			if rapid.IntRange(0, 2).Draw(t, "inflight_frag") == 0 {
+				// the in-flight request arrived in two reads, the second one only a byte or three long
+				inf.Fragmented, inf.Tail = true, rapid.SampledFrom([]int{1, 2, 3, 0}).Draw(t, "inflight_tail")
+			}
+			c.Steps = append(c.Steps, inf)
 		}
 		if m > 0 && rapid.IntRange(0, 2).Draw(t, "short_shutdown_first") == 0 {
 			c.Steps = append(c.Steps, step{Op: "shutdown-short"})
@@ -804,7 +818,7 @@ func TestCallbackCombinations(t *testing.T) {
 			}
 			if variant == 0 {
 				c.WriteDelayMs = 70
-				c.Steps = append(c.Steps, step{Op: "inflight", Client: 0, DelayMs: 40}, step{Op: "shutdown"})
+				c.Steps = append(c.Steps, step{Op: "inflight", Client: 0, DelayMs: 40, Fragmented: cb%2 == 1, Tail: 1 + cb%3}, step{Op: "shutdown"})
 			} else {
 				c.WriteTimeoutMs = 50
 				c.Reenter = true
@@ -833,24 +847,31 @@ func runTwice(c twiceCase) harness.Result {
 	h := &handler{ev: ev, dev: device.New(c.Seed)}
 	s := &server.Server{ReadTimeout: 5 * time.Millisecond, OnErrorFunc: func(error) {}}
 	s.OnServeFunc = func(a net.Addr) { ev.served <- a.String() }
+	// The two serve calls listen on different ports, so the kernel may give a client of the second one the same local port as a
+	// (still open) client of the first one: connections are therefore identified by the serve call they belong to (a value in the
+	// serve context, which the callbacks receive) plus the remote address.
+	type genKey struct{}
+	key := func(ctx context.Context, ra string) string { return fmt.Sprintf("%v|%s", ctx.Value(genKey{}), ra) }
 	tolds := map[string]uint64{} // guarded by ev.mu
 	s.OnAcceptConnFunc = func(ctx context.Context, ra net.Addr, n uint64) error {
 		ev.mu.Lock()
-		tolds[ra.String()] = n
+		tolds[key(ctx, ra.String())] = n
 		ev.mu.Unlock()
 		return nil
 	}
 	s.OnCloseConnFunc = func(ctx context.Context, ra net.Addr, isShutdown bool) {
 		ev.mu.Lock()
-		ev.closes[ra.String()]++
+		ev.closes[key(ctx, ra.String())]++
 		ev.mu.Unlock()
 	}
+	gen := 0
 	serveOnce := func() (string, context.CancelFunc, chan error, net.Listener, error) {
 		l, err := net.Listen("tcp", "127.0.0.1:0")
 		if err != nil {
 			return "", nil, nil, nil, err
 		}
-		ctx, cancel := context.WithCancel(context.Background())
+		gen++
+		ctx, cancel := context.WithCancel(context.WithValue(context.Background(), genKey{}, gen))
 		ch := make(chan error, 1)
 		go func() { ch <- s.Serve(ctx, l, h) }()
 		select {
@@ -884,7 +905,10 @@ func runTwice(c twiceCase) harness.Result {
 		n := tolds[local]
 		ev.mu.Unlock()
 		if n < lo || n > hi {
-			return fmt.Errorf("%s: accept callback reported connectionCount=%d, the number of live connections including the new one is %d..%d", who, n, lo, hi)
+			ev.mu.Lock()
+			state := fmt.Sprintf("told=%v closes=%v started=%v", tolds, ev.closes, ev.started)
+			ev.mu.Unlock()
+			return fmt.Errorf("%s: accept callback reported connectionCount=%d, the number of live connections including the new one is %d..%d [%s]", who, n, lo, hi, state)
 		}
 		return nil
 	}
@@ -896,7 +920,7 @@ func runTwice(c twiceCase) harness.Result {
 		}
 		conns = append(conns, cn)
 		// the earlier connections are open (their handlers run or have finished; nobody closes them while the serve call is active)
-		if err := check(fmt.Sprintf("first serve, connection %d", i), cn.LocalAddr().String(), uint64(i+1), uint64(i+1)); err != nil {
+		if err := check(fmt.Sprintf("first serve, connection %d", i), "1|"+cn.LocalAddr().String(), uint64(i+1), uint64(i+1)); err != nil {
 			cancel1()
 			return harness.Fail("%v", err)
 		}
@@ -942,7 +966,7 @@ func runTwice(c twiceCase) harness.Result {
 		if i == 0 {
 			hi = uint64(c.Leftover + 1)
 		}
-		if err := check(fmt.Sprintf("second serve of the same Server value, connection %d (%d connections of the first serve had handlers running when it was cancelled)", i, c.Leftover), cn.LocalAddr().String(), lo, hi); err != nil {
+		if err := check(fmt.Sprintf("second serve of the same Server value, connection %d (%d connections of the first serve had handlers running when it was cancelled)", i, c.Leftover), "2|"+cn.LocalAddr().String(), lo, hi); err != nil {
 			return fail("%v", err)
 		}
 		if i == 0 {
@@ -952,7 +976,7 @@ func runTwice(c twiceCase) harness.Result {
 				if err != nil || !bytes.Equal(got, want[k]) {
 					return fail("request in flight when the first serve was cancelled: received %x (%v), want %x", got, err, want[k])
 				}
-				local := conns[k].LocalAddr().String()
+				local := "1|" + conns[k].LocalAddr().String()
 				if !ev.wait(5*time.Second, func() bool { return ev.closes[local] > 0 }) {
 					return fail("connection of the cancelled serve: close callback not called within 5 s after its handler finished")
 				}
@@ -966,8 +990,11 @@ func runTwice(c twiceCase) harness.Result {
 	if e, ok := waitErr(ch2, 3*time.Second, 12*time.Second); !ok || !errors.Is(e, server.ErrServerClosed) {
 		return harness.Fail("after Shutdown the second serve call returned %v (returned=%v), want ErrServerClosed", e, ok)
 	}
-	for _, cn := range conns {
-		local := cn.LocalAddr().String()
+	for i, cn := range conns {
+		local := "2|" + cn.LocalAddr().String()
+		if i < c.Leftover {
+			local = "1|" + cn.LocalAddr().String()
+		}
 		if !ev.wait(5*time.Second, func() bool { return ev.closes[local] > 0 }) {
 			return harness.Fail("close callback not called for %s within 5 s after Shutdown", local)
 		}
